@@ -29,9 +29,10 @@ inside fn
   //@header                requires/ensures/decreases lines (spliced between signature and body)
   //@start                 ghost code at the start of the body
   //@tail                  ghost code before the tail expression (or at the end of a unit body)
-  //@before `pat` [#k]     ghost code before the k-th occurrence of the token pattern
-  //@after `pat` [#k]      ghost code after it
+  //@before `pat` [#k|all] ghost code before the k-th (all: every) occurrence of the token pattern
+  //@after `pat` [#k|all]  ghost code after it
   //@loop K                invariant/decreases/ensures clauses of the K-th loop (source order)
+  //@loop `pattern`        the same for the innermost loop whose text contains the token pattern (also with start | end)
   //@loop K start | //@loop K end      ghost code at start / end of that loop's body
   //@rewrite[Rn] `from` => `to` [#k|all]   token-level rewrite of the item text ($1..$9 = balanced wildcards)
   //@attr text             attribute line emitted before the fn
@@ -317,12 +318,13 @@ def emit_fn(out, src, item, spec, log, where, canary=False, strip=None):
             edits.append((p, p, "insert", [("\n", None)] + [(l + "\n", v) for l, v in spec.start]))
         for (kind, pat, k, lines, vline) in spec.anchors:
             occ = _find_all(body, _pat_toks(pat))
-            if k == "all" or k > len(occ):
+            if not occ or (k != "all" and k > len(occ)):
                 log.lost_anchors.append("%s: anchor %s `%s` #%s not found" % (qual, kind, pat, k))
                 continue
-            a, b, _ = occ[k - 1]
-            p = body[a].start if kind == "before" else body[b - 1].end
-            edits.append((p, p, "insert", [("\n", None)] + [(l + "\n", v) for l, v in lines]))
+            # `all`: the ghost code goes before/after every occurrence (e.g. every `break;`), however many there are
+            for (a, b, _) in (occ if k == "all" else [occ[k - 1]]):
+                p = body[a].start if kind == "before" else body[b - 1].end
+                edits.append((p, p, "insert", [("\n", None)] + [(l + "\n", v) for l, v in lines]))
         if spec.tail:
             ti = rsscan.tail_start(body)
             p = body[ti].start
@@ -330,10 +332,19 @@ def emit_fn(out, src, item, spec, log, where, canary=False, strip=None):
         if spec.loops:
             loops = find_loops(body)
             for K, secs in spec.loops.items():
-                if K > len(loops):
+                if isinstance(K, tuple):
+                    # //@loop `pattern`: the innermost loop whose text contains the pattern (independent of the loop's ordinal)
+                    cands = [lp for lp in loops if _find_all(body[lp[0]:lp[2] + 1], _pat_toks(K[1]))]
+                    inner = min(cands, key=lambda lp: lp[2] - lp[0]) if cands else None
+                    if inner is None or any(not (lp[0] <= inner[0] and inner[2] <= lp[2]) for lp in cands):
+                        log.lost_anchors.append("%s: loop containing `%s` %s" % (qual, K[1], "not found" if inner is None else "is ambiguous"))
+                        continue
+                    kw, op, cl = inner
+                elif K > len(loops):
                     log.lost_anchors.append("%s: loop %d not found (function has %d loops)" % (qual, K, len(loops)))
                     continue
-                kw, op, cl = loops[K - 1]
+                else:
+                    kw, op, cl = loops[K - 1]
                 if secs.get("spec"):
                     p = body[op].start
                     edits.append((p, p, "insert", [("\n", None)] + [(l + "\n", v) for l, v in secs["spec"]]))
@@ -774,8 +785,12 @@ def build(vc_path, repo_root, defines=None, canary=False, known_drops=None, stri
             cur_fn.anchors.append((word, pats[0], k, sec, lineno))
             cur_sec = sec
         elif word == "loop":
-            parts = rest.split()
-            K = int(parts[0])
+            if rest.startswith("`"):
+                K = ("pat", _pat_re.findall(rest)[0])
+                parts = ["`"] + _pat_re.sub("", rest).split()
+            else:
+                parts = rest.split()
+                K = int(parts[0])
             which = parts[1] if len(parts) > 1 else "spec"
             cur_sec = cur_fn.loops.setdefault(K, {}).setdefault(which, [])
         elif m_rw:
